@@ -36,12 +36,15 @@ Record vimodel := {
   vim_specs : list Loci.spec;       (* loci in registration order (read off the live objects) *)
   vim_events : list cevent;         (* the REGISTERED events (for the shipped class: remove on the I locus) *)
   vim_si : nat;                     (* index of the locus whose elements receive an appended entry *)
-  vim_infect : hkind }.             (* summary of self.infect *)
+  vim_infect : hkind;               (* summary of self.infect *)
+  vim_seed_post : option (Z * Q * nat) }.
+                                    (* a user subclass whose setUp posts, for every node initially in compartment c,
+                                       postEvent(T, n, program k) (the harness' posted-removal variant); None for the shipped class *)
 
 (* the registered part is an ordinary compartmented model; program |events| is self.infect *)
 Definition vi_cm (vm : vimodel) : cmodel :=
   {| cm_specs := vim_specs vm; cm_events := vim_events vm; cm_extra := [vim_infect vm];
-     cm_seed_post := None; cm_equil := [] |}.
+     cm_seed_post := vim_seed_post vm; cm_equil := [] |}.
 Definition vi_infect_prog (vm : vimodel) : nat := length (vim_events vm).
 
 (* the entry appended for element e of the SI locus in user state w *)
@@ -75,7 +78,10 @@ Definition inf_covers (edges : list (Z * Z)) (inf : list (Z * Z * Q)) : bool :=
 (* the shipped class as build() registers it, with the tie's coding of the compartments (names
    sorted: I = 1, R = 2, S = 3): loci SI (edges S-I) and I; one registered event, remove on I;
    infect = changeCompartment(n, I) + markOccupied + markHit, no posting *)
-Definition sir_vi (pRemove : Q) : vimodel :=
+Definition sir_vi_gen (pRemove : Q) (post : option Q) : vimodel :=
   {| vim_specs := [EdgeLocus 3 1; NodeLocus 1];
      vim_events := [{| ce_elem := true; ce_locus := 1; ce_p := pRemove; ce_kind := HNode 2 |}];
-     vim_si := 0; vim_infect := HLeft 1 true None |}.
+     vim_si := 0; vim_infect := HLeft 1 true None;
+     (* the posted-removal subclass: every seed gets postEvent(T, n, remove); remove is program 0 *)
+     vim_seed_post := option_map (fun T => (1%Z, T, 0%nat)) post |}.
+Definition sir_vi (pRemove : Q) : vimodel := sir_vi_gen pRemove None.
